@@ -630,3 +630,475 @@ def mech_equals_spec(model):
                 return False
         return True
     return eq(mt, st)
+
+
+# ------------------------------------------------------------------ await value kinds (data path)
+_STRS = ["", "x", "hello world", "a b  c", "0", "T1 1 2 3", "日本", "tab\\there", "q'uote", "semi;colon", "100%", "{brace}"]
+
+
+def gen_await_case(rng):
+    """A list of (kind, payload) results returned by async functions and awaited by main / by a task."""
+    ints = [0, 1, -1, 2147483647, -2147483647, 65536, -65536, rng.randint(-10 ** 9, 10 ** 9)]
+    longs = [4611686018427387904, -4611686018427387904, 9000000000, -9000000001, rng.randint(-2 ** 62, 2 ** 62)]
+    items = []
+    for _ in range(rng.randint(3, 8)):
+        k = rng.choice(["int", "long", "bool", "str", "struct", "some", "none", "ok", "err", "noret"])
+        if k == "int":
+            items.append((k, rng.choice(ints)))
+        elif k == "long":
+            items.append((k, rng.choice(longs)))
+        elif k == "bool":
+            items.append((k, rng.randint(0, 1)))
+        elif k == "str":
+            items.append((k, rng.choice([s for s in _STRS if "{" not in s and "\\" not in s and "%" not in s])))
+        elif k == "struct":
+            items.append((k, (rng.choice(ints), rng.choice(ints))))
+        elif k in ("some", "ok"):
+            items.append((k, rng.choice(ints)))
+        elif k == "err":
+            items.append((k, rng.choice(["e", "bad thing", "E 42"])))
+        else:
+            items.append((k, None))
+    order = list(range(len(items)))
+    rng.shuffle(order)
+    again = [rng.choice(order) for _ in range(rng.randint(0, 3))]
+    return {"items": items, "order": order + again, "yields": [rng.randint(0, 2) for _ in items],
+            "in_task": rng.random() < 0.5}
+
+
+def cb_lit(v):
+    return str(v) if v >= 0 else "(0 - %d)" % (-v)
+
+
+def await_program(c):
+    fs, spawn, aw = [], [], []
+    typ = {"int": "int", "long": "long", "bool": "bool", "str": "string", "struct": "P", "some": "Option<int>",
+           "none": "Option<int>", "ok": "Result<int, string>", "err": "Result<int, string>", "noret": "int"}
+    for i, ((k, v), ny) in enumerate(zip(c["items"], c["yields"])):
+        y = "".join("    yield;\n" for _ in range(ny))
+        t = typ[k]
+        if k in ("int", "long"):
+            body = "    return %s;\n" % cb_lit(v)
+        elif k == "bool":
+            body = "    return %s;\n" % ("true" if v else "false")
+        elif k == "str":
+            body = '    return "%s";\n' % v
+        elif k == "struct":
+            body = "    P p;\n    p.x = %s;\n    p.y = %s;\n    return p;\n" % (cb_lit(v[0]), cb_lit(v[1]))
+        elif k == "some":
+            body = "    return Option<int>::Some(%s);\n" % cb_lit(v)
+        elif k == "none":
+            body = "    return Option<int>::None;\n"
+        elif k == "ok":
+            body = "    return Result<int, string>::Ok(%s);\n" % cb_lit(v)
+        elif k == "err":
+            body = '    return Result<int, string>::Err("%s");\n' % v
+        else:
+            body = '    println("noret", %d);\n' % i
+        fs.append("async %s g%d(int a) {\n%s%s}\n" % (t, i, y, body))
+        spawn.append("    Future<%s> f%d = g%d(%d);\n" % (t, i, i, i))
+    n = 0
+    for i in c["order"]:
+        k, v = c["items"][i]
+        t = typ[k]
+        aw.append("    %s r%d = await f%d;\n" % (t, n, i))
+        if k in ("int", "long", "bool", "noret"):
+            aw.append('    println("V", %d, r%d);\n' % (i, n))
+        elif k == "str":
+            aw.append('    println("V", %d, r%d);\n' % (i, n))
+        elif k == "struct":
+            aw.append('    println("V", %d, r%d.x, r%d.y);\n' % (i, n, n))
+        elif k in ("some", "none"):
+            aw.append('    match (r%d) { Some(v) => { println("V", %d, "some", v); } None => { println("V", %d, "none"); } }\n' % (n, i, i))
+        else:
+            aw.append('    match (r%d) { Ok(v) => { println("V", %d, "ok", v); } Err(e) => { println("V", %d, "err", e); } }\n' % (n, i, i))
+        n += 1
+    if c["in_task"]:
+        return ("struct P { int x; int y; };\n" + "".join(fs) + "async int user(int a) {\n" + "".join(spawn) + "".join(aw) +
+                "    return 1;\n}\nvoid main() {\n    Future<int> fu = user(0);\n    int u = await fu;\n    println(\"U\", u);\n}\n")
+    return "struct P { int x; int y; };\n" + "".join(fs) + "void main() {\n" + "".join(spawn) + "".join(aw) + "}\n"
+
+
+def await_model_lines(c):
+    out = []
+    for k, v in c["items"]:
+        if k in ("int", "long", "bool"):
+            out.append("(%s %d)" % (k, v))
+        elif k == "str":
+            out.append(None)         # strings with blanks are not sent through the S-expression reader
+        elif k == "struct":
+            out.append("(struct P (x %d) (y %d))" % v)
+        elif k == "some":
+            out.append("(variant Option Some %d)" % v)
+        elif k == "none":
+            out.append("(variant Option None 0)")
+        elif k == "ok":
+            out.append("(variant Result Ok %d)" % v)
+        elif k == "err":
+            out.append(None)
+        else:
+            out.append("(none)")
+    return out
+
+
+def await_expected(c, model_out):
+    """Expected 'V' lines: from the property (the returned value), cross-checked with the model's data path."""
+    exp, notes = [], []
+    for i in c["order"]:
+        k, v = c["items"][i]
+        m = model_out[i]
+        if k in ("int", "long", "bool"):
+            exp.append("V %d %d" % (i, v))
+            if m is not None and m != "int %d" % v:
+                notes.append("model delivers %r for %s %r" % (m, k, v))
+        elif k == "noret":
+            exp.append("V %d 0" % i)
+            if m != "int 0":
+                notes.append("model delivers %r for a task without return" % m)
+        elif k == "str":
+            exp.append("V %d %s" % (i, v))
+        elif k == "struct":
+            exp.append("V %d %d %d" % (i, v[0], v[1]))
+            if m is not None and "members=x=%d,y=%d" % v not in m:
+                notes.append("model delivers %r for struct %r" % (m, v))
+        elif k in ("some", "ok"):
+            exp.append("V %d %s %d" % (i, k, v))
+            if m is not None and ("variant=%s " % k.capitalize() not in m or " assoc=%d " % v not in m):
+                notes.append("model delivers %r for %s %r" % (m, k, v))
+        elif k == "none":
+            exp.append("V %d none" % i)
+        elif k == "err":
+            exp.append("V %d err %s" % (i, v))
+    return exp, notes
+
+
+# ------------------------------------------------------------------ shrinking
+def _subs(ss):
+    """all bodies obtained from ss by one deletion / one un-nesting, any depth"""
+    for i, s in enumerate(ss):
+        yield ss[:i] + ss[i + 1:]
+        k = s[0]
+        if k == "blk":
+            yield ss[:i] + s[1] + ss[i + 1:]
+            for b in _subs(s[1]):
+                yield ss[:i] + [("blk", b)] + ss[i + 1:]
+        elif k == "if":
+            yield ss[:i] + s[2] + ss[i + 1:]
+            if s[3]:
+                yield ss[:i] + [("if", s[1], s[2], [])] + ss[i + 1:]
+            for b in _subs(s[2]):
+                yield ss[:i] + [("if", s[1], b, s[3])] + ss[i + 1:]
+            for b in _subs(s[3]):
+                yield ss[:i] + [("if", s[1], s[2], b)] + ss[i + 1:]
+        elif k == "while":
+            for b in _subs(s[2]):
+                yield ss[:i] + [("while", s[1], b)] + ss[i + 1:]
+        elif k == "for":
+            for b in _subs(s[5]):
+                if b:
+                    yield ss[:i] + [("for", s[1], s[2], s[3], s[4], b)] + ss[i + 1:]
+
+
+def shrink(case, bad, budget=400):
+    """Greedy reduction of a task set keeping `bad(case)` true."""
+    cur = case
+    n = 0
+    changed = True
+    while changed and n < budget:
+        changed = False
+        # drop a root
+        for i in range(len(cur["roots"])):
+            if len(cur["roots"]) <= 1:
+                break
+            roots = cur["roots"][:i] + cur["roots"][i + 1:]
+            awaits = [a - (1 if a > i else 0) for a in cur["awaits"] if a != i]
+            cand = dict(cur, roots=roots, awaits=awaits)
+            n += 1
+            if bad(cand):
+                cur, changed = cand, True
+                break
+        if changed:
+            continue
+        # drop a repeated await
+        seen, aw2 = set(), []
+        for a in cur["awaits"]:
+            if a not in seen:
+                aw2.append(a)
+                seen.add(a)
+        if len(aw2) < len(cur["awaits"]):
+            cand = dict(cur, awaits=aw2)
+            n += 1
+            if bad(cand):
+                cur, changed = cand, True
+                continue
+        for d in range(len(cur["defs"])):
+            for b in _subs(cur["defs"][d]):
+                cand = dict(cur, defs=cur["defs"][:d] + [b] + cur["defs"][d + 1:])
+                n += 1
+                if n > budget:
+                    break
+                if bad(cand):
+                    cur, changed = cand, True
+                    break
+            if changed or n > budget:
+                break
+    return cur
+
+
+def case_to_json(c):
+    return {"defs": c["defs"], "roots": [[d, a] for d, a in c["roots"]], "awaits": c["awaits"]}
+
+
+def _tup(x):
+    if isinstance(x, list):
+        if x and isinstance(x[0], str):
+            return tuple(_tup(y) if i > 0 else y for i, y in enumerate(x))
+        return [_tup(y) for y in x]
+    return x
+
+
+def case_from_json(j):
+    return {"defs": [[_tup(s) for s in d] for d in j["defs"]], "roots": [(r[0], list(r[1])) for r in j["roots"]],
+            "awaits": list(j["awaits"])}
+
+
+def evaluate(impl, cases):
+    """run model and implementation on the cases -> list of (case, model, imp, diffs, specdiffs) for usable cases"""
+    models = run_model(cases)
+    usable = [(c, m) for c, m in zip(cases, models) if model_ok(m)]
+    imps = common.pmap(lambda cm: parse_impl(*run_impl(impl, cm[0])), usable)
+    res = []
+    for (c, m), imp in zip(usable, imps):
+        res.append((c, m, imp, compare(c, m, imp), spec_compare(c, m, imp)))
+    return res, len(cases) - len(usable)
+
+
+def one(impl, case):
+    (m,) = run_model([case])
+    if not model_ok(m):
+        return None
+    imp = parse_impl(*run_impl(impl, case))
+    return m, imp, compare(case, m, imp), spec_compare(case, m, imp)
+
+
+# ------------------------------------------------------------------ main
+def run(rep):
+    seed, tier = rep.seed, rep.tier
+    cq = common.coq_check_props(PROP)
+    common.proof_coverage(rep, cq)
+    if not cq["ok"]:
+        rep.violation("proof", {"theorem": cq["failed_theorem"], "log": cq["log"][-3000:]},
+                      "proof obligation %s no longer checks" % cq["failed_theorem"], True)
+    if tier == "thorough" and cq["ok"]:
+        rc, o, e = common.sh(["coqchk", "-silent", "-o", "-Q", ".", "Cb", "Cb.C14.Properties_C14"], cwd=common.COQ, timeout=1200)
+        ax = re.search(r"\* Axioms:\s*(.*?)\n\s*\n", o + e, re.S)
+        rep.coverage["coqchk"] = {"rc": rc, "axioms": ax.group(1).strip() if ax else "?"}
+        if rc != 0:
+            rep.violation("coqchk", {"log": (o + e)[-3000:]}, "coqchk rejects the compiled proofs of C14", True)
+    common.ensure_model(PROP)
+    impl = common.build_impl("plain")
+    if not _STDBUF:
+        raise common.BuildError("stdbuf (coreutils) not found: cannot attribute output lines to task steps")
+
+    cases, origin = [], []
+    corpus = os.path.join(common.VERIF, "corpus", "c14.json")
+    if os.path.exists(corpus):
+        for j in json.load(open(corpus)):
+            cases.append(case_from_json(j)); origin.append("corpus")
+    exh_len = 2 if tier == "quick" else 3
+    ex, nseq = exhaustive_cases(exh_len)
+    cases += ex; origin += ["exhaustive-skeleton"] * len(ex)
+    seeds = [seed] if tier == "quick" else [seed, seed * 7919 + 1, seed * 104729 + 2, seed * 1299709 + 3]
+    n_rand = 4000 if tier == "quick" else 8000
+    n_frag = 2000 if tier == "quick" else 4000
+    for sd in seeds:
+        for k in range(n_rand):
+            cases.append(gen_case(rng_for(sd, "c14-rand", k), maxlen=5 if k % 3 else 7)); origin.append("random-task-set")
+        for k in range(n_frag):
+            cases.append(gen_case(rng_for(sd, "c14-frag", k), fragment=True)); origin.append("random-fragment")
+
+    org = {id(c): o for c, o in zip(cases, origin)}
+    hist, flaghist = {}, {}
+    distinct, nontrivial = set(), 0
+    corr_bad, spec_bad = [], []
+    n_wf_cases = n_spec_equal = n_spec_diff_known = 0
+    steps_total = tasks_total = 0
+    dropped = n_res = 0
+    samples = []
+    CH = 4000
+    for lo in range(0, len(cases), CH):
+        res, dr = evaluate(impl, cases[lo:lo + CH])
+        dropped += dr
+        n_res += len(res)
+        for (c, m, imp, d, sd) in res:
+            o = org[id(c)]
+            hist[o] = hist.get(o, 0) + 1
+            key = common.hashlib.sha256(sx_case(c).encode()).digest()[:12]
+            first = key not in distinct
+            distinct.add(key)
+            tasks_total += len(m["mech"])
+            steps_total += sum(len(i["steps"]) for i in m["mech"])
+            if first and any(e[0] in "yr" for i in m["mech"] for st in i["steps"] for e in st):
+                nontrivial += 1
+            fl = set()
+            for b in c["defs"]:
+                fl |= shape_flags(b)
+            for f in fl:
+                flaghist[f] = flaghist.get(f, 0) + 1
+            allwf = all(i["wf"] for i in m["mech"])
+            n_wf_cases += allwf
+            if o == "random-task-set" and len(samples) < 2 and len(m["mech"]) > 1:
+                samples.append({"program": cb_program(c), "model_steps": [i["steps"] for i in m["mech"]]})
+            if d:
+                if len(corr_bad) < 200:
+                    corr_bad.append((c, m, imp, d, sd, o))
+            elif sd:
+                if fl and not allwf:
+                    n_spec_diff_known += 1       # a shape listed in known_findings (predicted by the model)
+                elif len(spec_bad) < 50:
+                    spec_bad.append((c, m, imp, d, sd, o))
+            else:
+                n_spec_equal += 1
+            if allwf and not mech_equals_spec(m) and len(spec_bad) < 50:
+                spec_bad.append((c, m, imp, ["model: wf body but Mech <> Spec (theorem contradicted?)"], sd, o))
+        del res
+
+    rep.coverage.update({
+        "evaluations": n_res, "distinct_nontrivial": nontrivial,
+        "rule": "per task: sequence of steps (exec index, printed lines, yield(loop flag,index)/return(index)) of the extracted Mech model = "
+                "steps reconstructed from the merged stdout+CB_VERIF_SCHED_TRACE stream of main; auto flag at spawn; values printed by main "
+                "after await = model results; Spec (body alone) = implementation on every case outside the known-defect shapes. "
+                "distinct = distinct task sets; non-trivial = some task suspends (yield event) or returns",
+        "exhaustive": True,
+        "exhaustive_space": "all sequences of length <= %d over 66 statement skeletons (emit/yield/await/return at top level and at every "
+                            "position of 0-2-statement if / else / block / while / for bodies): %d bodies" % (exh_len, nseq),
+        "input_distribution": hist, "shape_histogram": flaghist, "dropped_nonterminating_in_model": dropped,
+        "tasks": tasks_total, "steps_compared": steps_total, "cases_in_fragment": n_wf_cases,
+        "spec_equal": n_spec_equal, "spec_differs_on_known_shape": n_spec_diff_known,
+        "disagreements": len(corr_bad), "spec_failures_outside_known_shapes": len(spec_bad),
+        "samples": samples,
+    })
+
+    def still_corr(want_spec):
+        def pred(c2):
+            r = one(impl, c2)
+            if not r or not r[2]:
+                return False
+            return (not want_spec) or (bool(r[3]) and mech_equals_spec(r[0]))
+        return pred
+
+    def still_spec(c2):
+        r = one(impl, c2)
+        if not r or r[2] or not r[3]:
+            return False
+        return not any(shape_flags(b) for b in c2["defs"])
+
+    # prefer inputs on which the property's own oracle fails although the pinned model satisfies it
+    corr_bad.sort(key=lambda x: (not (x[4] and mech_equals_spec(x[1])), len(sx_case(x[0]))))
+    for (c, m, imp, d, sd, o) in corr_bad[:4]:
+        want_spec = bool(sd) and mech_equals_spec(m)
+        c2 = shrink(c, still_corr(want_spec))
+        r = one(impl, c2) or (m, imp, d, sd)
+        m2, imp2, d2, sd2 = r
+        concrete = bool(sd2)
+        rep.violation("corr", {"case": case_to_json(c2), "program": cb_program(c2), "origin": o, "differences": d2,
+                               "model_steps": [i["steps"] for i in m2["mech"]],
+                               "impl_steps": [imp2["tasks"][t]["steps"] for t in imp2["order"]], "impl_main": imp2["main"],
+                               "spec_oracle": sd2 or "implementation agrees with the body run alone on this input",
+                               "broken": "correspondence Model.mstep = SimpleEventLoop::execute_one_step (carrier of every C14 theorem)"},
+                      "execute_one_step and the proved model disagree (%s)%s" % (
+                          d2[0] if d2 else "?", "; property oracle: " + sd2[0] if sd2 else ""),
+                      no_failing_input=not concrete)
+    spec_bad.sort(key=lambda x: len(sx_case(x[0])))
+    for (c, m, imp, d, sd, o) in spec_bad[:3]:
+        c2 = shrink(c, still_spec) if sd else c
+        r = one(impl, c2) or (m, imp, d, sd)
+        rep.violation("spec", {"case": case_to_json(c2), "program": cb_program(c2), "origin": o, "differences": r[3] or d},
+                      "a task does not run like its body alone on a shape not listed as a known finding (%s)" % ((r[3] or d or ["?"])[0]))
+
+    # ---- await value kinds
+    n_aw = 200 if tier == "quick" else 1500
+    aw_cases = [gen_await_case(rng_for(seed, "c14-await", k)) for k in range(n_aw)]
+    lines, idx = [], []
+    for ci, c in enumerate(aw_cases):
+        for ii, l in enumerate(await_model_lines(c)):
+            if l is not None:
+                lines.append(l); idx.append((ci, ii))
+    mout = common.run_model(PROP, "await", lines)
+    per = [[None] * len(c["items"]) for c in aw_cases]
+    for (ci, ii), o in zip(idx, mout):
+        per[ci][ii] = o
+    aw_res = common.pmap(lambda c: common.run_cb(impl, await_program(c)), aw_cases)
+    aw_bad = 0
+    for c, mo, (rc, so, se) in zip(aw_cases, per, aw_res):
+        exp, notes = await_expected(c, mo)
+        got = [l for l in so.split("\n") if l.startswith("V ")]
+        if rc != 0 or got != exp or notes:
+            aw_bad += 1
+            if aw_bad <= 2:
+                rep.violation("await", {"program": await_program(c), "expected": exp, "got": got, "rc": rc, "stderr": se[-400:],
+                                        "model_notes": notes},
+                              "await does not deliver the returned value (expected %r, got %r)%s" % (
+                                  exp[:3], got[:3], " [model: %s]" % notes[0] if notes else ""),
+                              no_failing_input=(rc == 0 and got == exp))
+    rep.coverage["await_value_programs"] = n_aw
+    rep.coverage["await_values_checked"] = sum(len(c["order"]) for c in aw_cases)
+
+    # ---- known findings: replay the stored inputs
+    for f in common.known_findings(PROP):
+        rp = f["replay"]
+        if "case" in rp:
+            c = case_from_json(rp["case"])
+            r = one(impl, c)
+            if r is None:
+                rep.notes.append("known finding %s: model does not terminate on the stored input" % f["id"])
+                continue
+            m, imp, d, sd = r
+            outs = [[e[1:] for stp in imp["tasks"][t]["steps"] for e in stp if e.startswith("o")] for t in imp["order"]]
+            if d:
+                rep.violation("corr-known", {"case": rp["case"], "differences": d},
+                              "model and implementation disagree on known-finding replay " + f["id"], not sd)
+            if outs[:1] != [rp["expected_root_output"]] or (imp["main"][:1] != [tuple(rp["expected_main"][0])] if rp.get("expected_main") else False):
+                rep.known(f["id"], f["what_fails"])
+            else:
+                rep.notes.append("known finding %s no longer reproduces (fixed?)" % f["id"])
+        else:
+            rc, so, se = common.run_cb(impl, rp["program"])
+            got = [l for l in so.split("\n") if l]
+            if got != rp["expected_stdout"]:
+                rep.known(f["id"], f["what_fails"])
+            else:
+                rep.notes.append("known finding %s no longer reproduces (fixed?)" % f["id"])
+    rep.assumptions += [
+        "which task receives the next step grant (queue discipline, nested run_until_complete) is property C15; here tasks are identified through the trace",
+        "tasks use only their own parameters and loop variables: interference through dynamic scoping is outside the model (tested on 1-4 concurrent tasks)",
+        "task bodies are over int locals with emit/assign/await/yield/return/block/if/while/for; break/continue/defer/sleep/method tasks are not modelled",
+        "programs on which the model itself does not terminate within %d steps are dropped from the stream (counted)" % MAXSTEPS,
+    ]
+
+
+def replay(path):
+    data = json.load(open(path))
+    c = data["case"]
+    common.ensure_model(PROP)
+    impl = common.build_impl("plain")
+    if "case" in c:
+        case = case_from_json(c["case"])
+        print(cb_program(case))
+        r = one(impl, case)
+        if r is None:
+            print("model does not terminate on this case")
+            return 1
+        m, imp, d, sd = r
+        print("model steps:", [i["steps"] for i in m["mech"]])
+        print("impl steps: ", [imp["tasks"][t]["steps"] for t in imp["order"]], "main:", imp["main"])
+        print("model vs implementation:", d or "equal")
+        print("body alone vs implementation:", sd or "equal")
+        return 1 if (d or sd) else 0
+    if "program" in c:
+        rc, so, se = common.run_cb(impl, c["program"])
+        got = [l for l in so.split("\n") if l.startswith("V ")]
+        print("expected:", c.get("expected")); print("got:     ", got, "rc", rc)
+        return 0 if got == c.get("expected") and rc == 0 else 1
+    print(json.dumps(c, indent=1))
+    return 1
